@@ -74,6 +74,13 @@ func (c *Calcium) RemoveNode(ctx context.Context, nodename string) error {
 		return types.ErrEmptyNodeName
 	}
 	return c.withNodePodLocked(ctx, nodename, func(ctx context.Context, node *types.Node) error {
+		// the node was read before the pod lock was held: make sure a concurrent remove
+		// has not taken it away meanwhile, removing it twice would bring its metadata back
+		node, err := c.store.GetNode(ctx, node.Name)
+		if err != nil {
+			logger.Error(ctx, err)
+			return err
+		}
 		workloads, err := c.ListNodeWorkloads(ctx, node.Name, nil)
 		if err != nil {
 			logger.Error(ctx, err)
